@@ -10,9 +10,12 @@ Phase 1 (depth 1): every recipe in its own forked child of the pristine parent (
 compare state, call again, compare results).  If every transition is a self-loop the
 BFS frontier is empty after depth 1 and any longer program over the alphabet is covered
 by induction on the captured state.
-Phase 2 (hidden state): for every recipe a, a forked child runs a and then EVERY recipe b,
-comparing each b with its pristine result (history a.b1.b2...bn); thorough adds, for a
-25-recipe sub-alphabet, every ordered pair (a, b) followed by every c.
+Phase 2 (hidden state): for every recipe a: a, then EVERY recipe b, each b compared with its
+pristine result (16 forked children, child i takes the recipes a with index = i mod 16 one
+after the other, so the real history before b is longer than a.b); thorough adds, for a
+25-recipe sub-alphabet, every ordered pair (a, b) followed by every c, each pair in its own child.
+Recipes include single-parameter variants of the same callable, which is what exposes state
+keyed on a subset of the arguments.
 Batch clause: every stack of depth <= 3 over a small frame alphabet == per-item results.
 """
 import importlib
@@ -373,8 +376,112 @@ def recipes():
     add("findActiveSubaps:fill", A + "wfs.wfslib.findActiveSubaps", lambda P: wfslib.findActiveSubaps(3, P["mask8"], 0.5, returnFill=True))
     add("computeFillFactor", A + "wfs.wfslib.computeFillFactor", lambda P: wfslib.computeFillFactor(P["mask8"], P["subap_pos"], 2))
     add("make_subaps_2d", A + "wfs.wfslib.make_subaps_2d", lambda P: wfslib.make_subaps_2d(P["slopes"], P["mask4"]))
+    # ---- single-parameter variants: the same callable with exactly one scalar argument changed.  State that is
+    # keyed on a subset of the arguments (a cache that forgets a parameter, a lazily built table) makes the
+    # result of one variant depend on whether another variant ran before; the history phases expose that.
+    add("v:circle:centre", A + "functions.pupil.circle", lambda P: pupil.circle(2.5, 6, (1.0, 0.5)))
+    add("v:circle:radius", A + "functions.pupil.circle", lambda P: pupil.circle(1.5, 6, (0.5, -0.5)))
+    add("v:circle:corner6", A + "functions.pupil.circle", lambda P: pupil.circle(2.0, 6, (2, 3), origin="corner"))
+    add("v:circle:corner6b", A + "functions.pupil.circle", lambda P: pupil.circle(2.0, 6, (3, 2), origin="corner"))
+    add("v:gaussian2d:width", A + "functions._functions.gaussian2d", lambda P: fn_.gaussian2d((6, 8), (2.5, 2.), 2., (2.5, 3.)))
+    add("v:zernikeArray:p2v", A + "functions.zernike.zernikeArray", lambda P: zk.zernikeArray(6, 8, norm="p2v"))
+    add("v:zernikeArray:rms", A + "functions.zernike.zernikeArray", lambda P: zk.zernikeArray(6, 8, norm="rms"))
+    add("v:zernikeArray:rot", A + "functions.zernike.zernikeArray", lambda P: zk.zernikeArray(6, 8, rot=0.4))
+    add("v:zernikeArray:N9", A + "functions.zernike.zernikeArray", lambda P: zk.zernikeArray(6, 9))
+    add("v:zernike_noll:rot", A + "functions.zernike.zernike_noll", lambda P: zk.zernike_noll(7, 8, rot=0.5))
+    add("v:zernike_noll:j", A + "functions.zernike.zernike_noll", lambda P: zk.zernike_noll(8, 8))
+    add("v:zernike_nm:m", A + "functions.zernike.zernike_nm", lambda P: zk.zernike_nm(3, 1, 9, rot=0.2))
+    add("v:phaseFromZernikes:p2v", A + "functions.zernike.phaseFromZernikes", lambda P: zk.phaseFromZernikes(P["coeffs"], 8, norm="p2v"))
+    add("v:makegammas:4", A + "functions.zernike.makegammas", lambda P: zk.makegammas(4))
+    add("v:kl.gkl_radii:ri", A + "functions.karhunenLoeve.gkl_radii", lambda P: kl.gkl_radii(0.3, 8))
+    add("v:kl.gkl_kernel:ri", A + "functions.karhunenLoeve.gkl_kernel", lambda P: kl.gkl_kernel(0.3, 8, kl.gkl_radii(0.3, 8)))
+    add("v:kl.gkl_basis:ri", A + "functions.karhunenLoeve.gkl_basis", lambda P: kl.gkl_basis(ri=0.3, nr=8, npp=40, nfunc=6))
+    add("v:kl.gkl_basis:nfunc", A + "functions.karhunenLoeve.gkl_basis", lambda P: kl.gkl_basis(ri=0.2, nr=8, npp=40, nfunc=4))
+    add("v:kl.make_kl:nmax", A + "functions.karhunenLoeve.make_kl", lambda P: kl.make_kl(4, 16, ri=0.2, nr=8))
+    add("v:kl.make_kl:dim", A + "functions.karhunenLoeve.make_kl", lambda P: kl.make_kl(5, 17, ri=0.2, nr=8))
+    add("v:kl.make_kl:ri", A + "functions.karhunenLoeve.make_kl", lambda P: kl.make_kl(5, 16, ri=0.3, nr=8))
+    add("v:kl.pcgeom:ri", A + "functions.karhunenLoeve.pcgeom", lambda P: kl.pcgeom(8, 40, 16, 0.3, 2))
+    add("v:ft_phase_screen:r0", A + "turbulence.phasescreen.ft_phase_screen", lambda P: phs.ft_phase_screen(0.1, 8, 0.1, 25., 0.01, seed=3))
+    add("v:ft_phase_screen:L0", A + "turbulence.phasescreen.ft_phase_screen", lambda P: phs.ft_phase_screen(0.2, 8, 0.1, 10., 0.01, seed=3))
+    add("v:ft_phase_screen:delta", A + "turbulence.phasescreen.ft_phase_screen", lambda P: phs.ft_phase_screen(0.2, 8, 0.2, 25., 0.01, seed=3))
+    add("v:ft_phase_screen:seed", A + "turbulence.phasescreen.ft_phase_screen", lambda P: phs.ft_phase_screen(0.2, 8, 0.1, 25., 0.01, seed=4))
+    add("v:ft_sh_phase_screen:r0", A + "turbulence.phasescreen.ft_sh_phase_screen", lambda P: phs.ft_sh_phase_screen(0.1, 8, 0.1, 25., 0.01, seed=3))
+    add("v:ft_sh_phase_screen:L0", A + "turbulence.phasescreen.ft_sh_phase_screen", lambda P: phs.ft_sh_phase_screen(0.2, 8, 0.1, 0.5, 0.01, seed=3))
+
+    def vk_r0(P):
+        s = ips.PhaseScreenVonKarman(5, 0.1, 0.1, 25., random_seed=2)
+        a = numpy.array(s.scrn)
+        s.add_row()
+        return [a, numpy.array(s.scrn)]
+
+    def fried_r0(P):
+        s = ips.PhaseScreenKolmogorov(4, 0.1, 0.1, 25., random_seed=2, stencil_length_factor=2)
+        a = numpy.array(s.scrn)
+        s.add_row()
+        return [a, numpy.array(s.scrn)]
+    add("v:PhaseScreenVonKarman:r0", A + "turbulence.infinitephasescreen.PhaseScreenVonKarman", vk_r0)
+    add("v:PhaseScreenKolmogorov:r0", A + "turbulence.infinitephasescreen.PhaseScreenKolmogorov", fried_r0)
+    add("v:angularSpectrum:spacing", A + "opticalpropagation.angularSpectrum", lambda P: op.angularSpectrum(P["field"], 5e-7, 0.013, 0.01, -500.))
+    add("v:angularSpectrum:wvl", A + "opticalpropagation.angularSpectrum", lambda P: op.angularSpectrum(P["field"], 7e-7, 0.01, 0.013, 500.))
+    add("v:oneStepFresnel:z", A + "opticalpropagation.oneStepFresnel", lambda P: op.oneStepFresnel(P["field"], 5e-7, 0.01, 800.))
+    add("v:twoStepFresnel:wvl", A + "opticalpropagation.twoStepFresnel", lambda P: op.twoStepFresnel(P["field"], 7e-7, 0.01, 0.013, 500.))
+    add("v:twoStepFresnel:z", A + "opticalpropagation.twoStepFresnel", lambda P: op.twoStepFresnel(P["field"], 5e-7, 0.01, 0.013, 900.))
+    add("v:lensAgainst:f", A + "opticalpropagation.lensAgainst", lambda P: op.lensAgainst(P["field"], 5e-7, 0.01, 1.5))
+    for f in ("cn2_to_seeing", "seeing_to_cn2", "cn2_to_r0", "r0_to_cn2", "r0_to_seeing", "seeing_to_r0"):
+        add("v:%s:default_lambda" % f, A + "turbulence.atmos_conversions." + f, lambda P, f=f: getattr(ac, f)(P["r0s"]))
+    add("v:coherenceTime:lambda", A + "turbulence.atmos_conversions.coherenceTime", lambda P: ac.coherenceTime(P["cn2"], P["w"], 7e-7))
+    add("v:coherenceTime:axis0", A + "turbulence.atmos_conversions.coherenceTime", lambda P: ac.coherenceTime(P["cn2_stack"].T, P["w"][:, None], axis=0))
+    add("v:rytov_variance:stack", A + "turbulence.atmos_conversions.rytov_variance", lambda P: ac.rytov_variance(P["cn2_stack"], P["h_stack"], axis=1))
+    for band in ("r", "R", "i", "I", "V"):
+        add("v:magnitude_to_flux:" + band, A + "astronomy._astronomy.magnitude_to_flux", lambda P, b=band: astro.magnitude_to_flux(7.5, b))
+        add("v:flux_to_magnitude:" + band, A + "astronomy._astronomy.flux_to_magnitude", lambda P, b=band: astro.flux_to_magnitude(2e5, b))
+    add("v:photons_per_band:V", A + "astronomy._astronomy.photons_per_band", lambda P: astro.photons_per_band(5., P["mask4"], 0.5, 0.01, "V"))
+    add("v:equivalent_layers:L3", A + "turbulence.profile_compression.equivalent_layers", lambda P: pc.equivalent_layers(P["h"], P["cn2"], 3))
+    add("v:equivalent_layers:int_wind", A + "turbulence.profile_compression.equivalent_layers",
+        lambda P: pc.equivalent_layers(P["h"], P["cn2"], 2, numpy.array([4, 5, 7, 9, 12])))
+
+    def og2(P):
+        numpy.random.seed(11)
+        return pc.optimal_grouping(2, 2, P["h"], P["cn2"][::-1].copy())
+    add("v:optimal_grouping:profile", A + "turbulence.profile_compression.optimal_grouping", og2, uses_global_rng=True)
+    add("v:GCTM:L1", A + "turbulence.profile_compression.GCTM", lambda P: pc.GCTM(P["h"], P["cn2"] * 100, 1))
+    for arr in ("sep", "rr"):
+        add("v:structure_function_vk:L0:" + arr, A + "turbulence.slopecovariance.structure_function_vk", lambda P, a=arr: sc.structure_function_vk(P[a], 0.2, 5.))
+        add("v:phase_covariance:r0:" + arr, A + "turbulence.turb.phase_covariance", lambda P, a=arr: turb.phase_covariance(P[a], 0.1, 25.))
+        add("v:kl.stf_vonKarman:L0:" + arr, A + "functions.karhunenLoeve.stf_vonKarman", lambda P, a=arr: kl.stf_vonKarman(P[a], 5.))
+
+    def covmat2(P):
+        c = sc.CovarianceMatrix(2, [P["mask2"], P["mask2"]], 1.0, [0.5, 0.5], [0, 90000.], [[0, 0], [-20., 8.]],
+                                [5e-7, 6e-7], 2, P["h"][:2], P["r0s"][:2], [25., 10.], threads=1)
+        m = numpy.array(c.make_covariance_matrix())
+        r1 = numpy.array(c.make_tomographic_reconstructor(svd_conditioning=0.01))
+        c.gs_positions = [[0, 0], [10., 5.]]
+        m2 = numpy.array(c.make_covariance_matrix())
+        r2 = numpy.array(c.make_tomographic_reconstructor(svd_conditioning=0.01))
+        return [m, r1, m2, r2]
+    add("v:CovarianceMatrix:gs_moved", A + "turbulence.slopecovariance.CovarianceMatrix", covmat2)
+    add("v:create_tomographic_covariance_reconstructor:rc", A + "turbulence.slopecovariance.create_tomographic_covariance_reconstructor",
+        lambda P: sc.create_tomographic_covariance_reconstructor(P["cov8"], 2, 0.3))
+    add("v:calculate_structure_function:step2", A + "turbulence.slopecovariance.calculate_structure_function",
+        lambda P: sc.calculate_structure_function(P["img"], 2, 2))
+    add("v:centre_of_gravity:thr0.6", A + "image_processing.centroiders.centre_of_gravity", lambda P: cen.centre_of_gravity(P["stack"], threshold=0.6))
+    add("v:brightest_pixel:0.5", A + "image_processing.centroiders.brightest_pixel", lambda P: cen.brightest_pixel(P["stack"], 0.5))
+    add("v:correlation_centroid:pad3", A + "image_processing.centroiders.correlation_centroid",
+        lambda P: cen.correlation_centroid(P["stack"], P["ref"], padding=3))
+    add("v:encircled_energy:0.8", A + "image_processing.psf.encircled_energy", lambda P: psf.encircled_energy(P["img"], fraction=0.8))
+    add("v:encircled_energy:centre", A + "image_processing.psf.encircled_energy", lambda P: psf.encircled_energy(P["img"], center=[2, 3]))
+    add("v:zoom:order1", A + "interpolation.zoom", lambda P: ip.zoom(P["img_c128"], (9, 9), order=1))
+    add("v:zoom:order5", A + "interpolation.zoom", lambda P: ip.zoom(P["img"], (11, 11), order=5))
+    add("v:zoom_rbs:order3", A + "interpolation.zoom_rbs", lambda P: ip.zoom_rbs(P["img"], (9, 9), order=3))
+    add("v:binImgs:n3", A + "interpolation.binImgs", lambda P: ip.binImgs(P["img"], 3))
+    add("v:findActiveSubaps:thr0", A + "wfs.wfslib.findActiveSubaps", lambda P: wfslib.findActiveSubaps(4, P["mask8"], 0.0))
+    add("v:computeFillFactor:4", A + "wfs.wfslib.computeFillFactor", lambda P: wfslib.computeFillFactor(P["mask8"], P["subap_pos"], 4))
+    add("v:get_tps_time_axis:odd", A + "turbulence.temporal_ps.get_tps_time_axis", lambda P: tp.get_tps_time_axis(100., 9))
+    add("v:find_allowed_size:10", A + "turbulence.infinitephasescreen.find_allowed_size", lambda P: ips.find_allowed_size(10))
     return R
 
+
+N_CHAINS = 16        # phase 2 runs in this many forked children; child i handles the recipes a with index = i mod 16
 
 SUB_ALPHABET = ["ft:vec", "ift2:img", "rft:vec", "circle", "zernikeArray:count", "phaseFromZernikes", "kl.gkl_basis",
                 "kl.make_kl", "centre_of_gravity:thr:stack", "brightest_pixel:img", "correlation_centroid:img",
@@ -517,6 +624,15 @@ def _single(rid):
             "changed2": [c for c in ss.changed(mid, post2) if c not in ign]}
 
 
+def _chains(a_ids, alphabet_ids, pristine):
+    """for every a of a_ids (in order, in this one process): a, then every recipe b of the alphabet"""
+    out = []
+    for a in a_ids:
+        for rid, d, e in _chain([a], alphabet_ids, pristine):
+            out.append((a, rid, d, e))
+    return out
+
+
 def _chain(prefix_ids, alphabet_ids, pristine):
     """run the prefix, then every recipe of the alphabet, comparing with pristine digests"""
     recs = {r[0]: r for r in recipes()}
@@ -549,9 +665,8 @@ def setup(tier):
     repo.load()
     ids = [r[0] for r in recipes()]
     assert len(set(ids)) == len(ids), "duplicate recipe ids"
-    _PRISTINE = {}
-    for rid in ids:
-        _PRISTINE[rid] = isolated(_single, rid)
+    from mc.isolate import isolated_map
+    _PRISTINE = dict(zip(ids, isolated_map(_single, [(rid,) for rid in ids], jobs=16)))
 
 
 def cases(tier):
@@ -559,8 +674,8 @@ def cases(tier):
     yield Case("catalogue", {"kind": "catalogue"}, False)
     for rid, target, fn, flags in recs:
         yield Case("single:" + rid, {"kind": "single", "rid": rid}, True)
-    for rid, target, fn, flags in recs:
-        yield Case("after:" + rid, {"kind": "after", "rid": rid}, True)
+    for i in range(N_CHAINS):
+        yield Case("chain:%d" % i, {"kind": "chain", "i": i}, True)
     if tier == "thorough":
         for a in SUB_ALPHABET:
             for b in SUB_ALPHABET:
@@ -618,6 +733,18 @@ def evaluate(p):
         o.stat("states", 1 if r["changed"] else 0)     # a changed state is a new state; self-loops add none
         o.stat("self_loops", (0 if r["changed"] else 1) + (0 if r["changed2"] else 1))
         o.outcome(r["d1"])
+        return o
+    if kind == "chain":
+        ids = [r[0] for r in recipes()]
+        mine = [rid for k, rid in enumerate(ids) if k % N_CHAINS == p["i"]]
+        bad = isolated(_chains, mine, ids, _PRISTINE)
+        o.stat("transitions", len(mine) * (1 + len(ids)))
+        o.stat("lib_calls", len(mine) * (1 + len(ids)))
+        o.stat("traces_validated_against_impl", len(mine) * len(ids))
+        o.check("result_independent_of_history", True, n=len(mine) * len(ids) - len(bad))
+        for a, rid, d, e in bad:
+            o.check("result_independent_of_history", False, sub="after=%s:then=%s" % (a, rid),
+                    detail={"error": e, "earlier_in_this_process": mine[:mine.index(a)]})
         return o
     if kind in ("after", "after2"):
         ids = [r[0] for r in recipes()]
